@@ -433,8 +433,20 @@ def run(tier, seed, replay, cfg, verdict, wd, t0):
     if missing:
         raise L.ToolError(f"case export is vacuous or inconsistent: {missing}")
 
+    # a malformed message must not affect valid messages queued behind it in the same frame ("keeps serving
+    # every client correctly"): junk from an attacker followed by a valid message of the well-behaved client
+    ri = L.run([L.harness_bin(BIN), "--mode", "interfere"], timeout=600)
+    interfere = json.loads(ri.stdout.strip().splitlines()[-1])
+    if interfere["cases"] < 1000:
+        raise L.ToolError("interference pass ran too few cases")
+    if interfere["failure_count"]:
+        rp = L.save_replay(PID, f"{tier}-interfere.json", interfere["failures"][:50])
+        verdict.violation(rp, f"{interfere['failure_count']} valid messages queued behind junk in the same frame were lost or changed; "
+                              f"first: {json.dumps(interfere['failures'][0])[:300]}")
+
     sections = {"spec": spec, "corpus": corpus, "sweep": sweep, "random": rnd}
     nviol = evaluate(verdict, sections, lambda mid: cases[mid] if isinstance(mid, int) and 0 <= mid < len(cases) else None, tier)
+    nviol += interfere["failure_count"]
     ndiv = spec["divergence_count"]
     if ndiv:
         L.log(f"[c06] note: {ndiv} cases where the code differs from the transcribed mechanism within what the property "
@@ -462,6 +474,7 @@ def run(tier, seed, replay, cfg, verdict, wd, t0):
                        "restarts": s["restarts"], "max_single_allocation_bytes": s["max_alloc"],
                        "max_single_allocation_at": s["max_alloc_id"], "counts": dict(sorted(s["counts"].items()))}
                    for k, s in sections.items()},
+        "same_frame_interference_cases": interfere["cases"],
         "sweep_inputs": sweep["cases"],
         "random_inputs": rnd["cases"],
         "corpus_cases": corpus["cases"],
